@@ -55,6 +55,23 @@ Theorem c20_versions_map_keys_distinct :
 Proof. exact all_rego_versions_nodup. Qed.
 Print Assumptions c20_versions_map_keys_distinct.
 
+(* However spelled: a path given relative to the working directory and the absolute path of the same
+   file yield the same name for the lookup (InputFromPaths after commit 0bd1e14), from any working
+   directory; and below the project prefix that name is the "/"-rooted form of the theorem above. *)
+Theorem c20_spelling_invariant :
+  forall cwdc relc cwd' prefix,
+  good_comps cwdc -> good_comps relc -> relc <> [] -> prefix <> [] ->
+  input_from_paths_name (SLASH :: join [SLASH] cwdc) prefix (join [SLASH] relc) =
+  input_from_paths_name cwd' prefix (SLASH :: join [SLASH] (cwdc ++ relc)).
+Proof. exact spelling_invariant. Qed.
+Print Assumptions c20_spelling_invariant.
+
+Theorem c20_name_under_prefix :
+  forall rootc ds base, rootc <> [] ->
+  trim_prefix (SLASH :: join [SLASH] (rootc ++ ds ++ [base])) (SLASH :: join [SLASH] rootc) = file_of ds base.
+Proof. exact name_under_prefix. Qed.
+Print Assumptions c20_name_under_prefix.
+
 (* Regression witness: the lookup as it was at the pinned commit (path.Join dropped the trailing
    separator) claimed the sibling "ab/" for root "a" — fixed in /repo by commit 93c52d1. *)
 Theorem c20_pinned_lookup_refuted :
